@@ -2016,10 +2016,12 @@ static ASTNode *parse_primary(Stage1Parser *p) {
                         }
                         free(args);
                         if (func_name) free(func_name);
-                        if (func_expr) free_ast(func_expr);
                         if (module_alias) free(module_alias);
                         if (qualified_func_name) free(qualified_func_name);
-                        if (first_expr && first_expr->type == AST_IDENTIFIER) {
+                        /* func_expr, when set, IS first_expr: free it once and do not look at it afterwards */
+                        if (func_expr) {
+                            free_ast(func_expr);
+                        } else if (first_expr && first_expr->type == AST_IDENTIFIER) {
                             free(first_expr);  /* Don't use free_ast - we already extracted the identifier */
                         }
                         return NULL;
@@ -2033,10 +2035,11 @@ static ASTNode *parse_primary(Stage1Parser *p) {
                     }
                     free(args);
                     if (func_name) free(func_name);
-                    if (func_expr) free_ast(func_expr);
                     if (module_alias) free(module_alias);
                     if (qualified_func_name) free(qualified_func_name);
-                    if (first_expr && first_expr->type == AST_IDENTIFIER) {
+                    if (func_expr) {
+                        free_ast(func_expr);
+                    } else if (first_expr && first_expr->type == AST_IDENTIFIER) {
                         free(first_expr);
                     }
                     return NULL;
